@@ -71,10 +71,9 @@ impl Lexer {
     ///
     /// This function will update the current character and the position
     /// of the Lexer struct.
+    /// Move to the next character, keeping the row/column of the position up to date.
     fn consume_char(&mut self) {
-        // Get the next character
-        if let Some(ch) = self.peek(1) {
-            // Update the position
+        if let Some(ch) = self.current() {
             if ch == '\n' {
                 self.row += 1;
                 self.col = 0;
@@ -82,15 +81,9 @@ impl Lexer {
                 self.col += 1;
             }
             self.pos += 1;
-        } else {
-            self.pos = self.source.len();
         }
     }
 
-    /// Skip ahead N characters in the source.
-    ///
-    /// This function will update the current character and the position of the
-    /// lexer.
     fn skip_char(&mut self, n: usize) {
         for _ in 0..n {
             self.consume_char();
@@ -136,24 +129,16 @@ impl Lexer {
     ///
     /// This function will return a range with the start and end position
     /// being the current position of the lexer.
+    /// The range of the single character at the current position.
     fn get_range(&self) -> Range {
-        let mut end = self.get_pos();
-        end.increment_column();
-        Range::new(self.get_pos(), end)
+        Range::new(self.get_pos(), self.get_pos())
     }
 
-    /// Get the current position of the lexer.
-    ///
-    /// This function will return the current position of the lexer.
+    /// The position of the current character.
     fn get_pos(&self) -> Position {
-        let column = if self.col == 0 { 0 } else { self.col - 1 };
-        Position::new(self.row, column, self.pos)
+        Position::new(self.row, self.col, self.pos)
     }
 
-    /// Lex a unicode escape code.
-    ///
-    /// Returns None if the code doesn't define a valid unicode character. The
-    /// escape code is lexed into a single unicode character.
     fn unicode_code(&mut self) -> Option<char> {
         let chars = vec![self.peek(2)?, self.peek(3)?, self.peek(4)?, self.peek(5)?];
 
@@ -323,12 +308,11 @@ impl Iterator for Lexer {
 
                 while let Some(current) = self.current() {
                     dir_str.push(current);
-                    if let Some(next) = self.peek(1) {
-                        if !Self::is_symbol_char(next) {
-                            break;
-                        }
+                    // stop on the last character of the directive
+                    match self.peek(1) {
+                        Some(next) if Self::is_symbol_char(next) => self.consume_char(),
+                        _ => break,
                     }
-                    self.consume_char();
                 }
 
                 let end = self.get_pos();
@@ -396,7 +380,6 @@ impl Iterator for Lexer {
 
                 let end = self.get_pos();
                 self.consume_char(); // Skip final '"'
-                self.consume_char();
 
                 Some(Token::new(
                     TokenType::String(string_str.clone()),
@@ -486,12 +469,11 @@ impl Iterator for Lexer {
 
                 while let Some(current) = self.current() {
                     symbol_str.push(current);
-                    if let Some(next) = self.peek(1) {
-                        if !Self::is_symbol_item(next) {
-                            break;
-                        }
+                    // stop on the last character of the symbol
+                    match self.peek(1) {
+                        Some(next) if Self::is_symbol_item(next) => self.consume_char(),
+                        _ => break,
                     }
-                    self.consume_char();
                 }
 
                 // If the next char is ':', this is a label
